@@ -89,11 +89,14 @@ func verifC13AbortProtocol() {
 		switch verifChoice(3) {
 		case 0: // a writer enters
 			entered := false
+			ctx, cancel := context.WithCancel(context.Background())
 			verifRunUntilBlocked(func() {
-				if m.startWriteContext(context.Background()) == nil {
+				if m.startWriteContext(ctx) == nil {
 					entered = true
 				}
 			})
+			cancel() // a writer that is still waiting gives up (natively the spin loop ends here)
+			verifSettle()
 			if aborted {
 				verifReach("start-while-blocked")
 				verifAssert(!entered, "a-write-starting-while-an-abort-is-pending-does-not-enter")
@@ -152,6 +155,7 @@ func verifC13AbortProtocol() {
 	}
 	entered := false
 	verifRunUntilBlocked(func() { entered = m.startWriteContext(context.Background()) == nil })
+	verifSettle()
 	verifAssert(entered, "later-writes-by-any-user-enter")
 	verifReach("done")
 }
